@@ -55,6 +55,10 @@ type c07World struct {
 	acct     account.Account
 	maxValue btcutil.Amount
 
+	// lastFault names the collaborator call that returned an injected fault
+	// (the refusal class is "which call failed", never an error text)
+	lastFault string
+
 	fundHook func(*psbt.Packet) (*psbt.Packet, int32, bool)
 	fundFail bool
 	fundReq  *walletrpc.FundPsbtRequest
@@ -89,6 +93,7 @@ func (s *c07Store) UpdateAccount(a *account.Account,
 	modifiers ...account.Modifier) error {
 
 	if s.w.failStore {
+		s.w.lastFault = "storeFail"
 		return errors.New("verif-store-fault")
 	}
 	for _, m := range modifiers {
@@ -121,6 +126,7 @@ func (a *c07Auctioneer) ModifyAccount(_ context.Context, acct *account.Account,
 	}
 	a.w.add(ev)
 	if a.w.failAuct {
+		a.w.lastFault = "auctioneerFail"
 		return nil, nil, errors.New("verif-auctioneer-fault")
 	}
 	return []byte("auctioneer sig"), make([]byte, 66), nil
@@ -128,6 +134,7 @@ func (a *c07Auctioneer) ModifyAccount(_ context.Context, acct *account.Account,
 
 func (a *c07Auctioneer) Terms(context.Context) (*terms.AuctioneerTerms, error) {
 	if a.w.failTerms {
+		a.w.lastFault = "termsFail"
 		return nil, errors.New("verif-terms-fault")
 	}
 	return &terms.AuctioneerTerms{MaxAccountValue: a.w.maxValue}, nil
@@ -145,6 +152,7 @@ func (w *c07Wallet) PublishTransaction(_ context.Context, tx *wire.MsgTx,
 
 	w.w.add(c07Event{kind: "P", tx: tx.Copy()})
 	if w.w.failPublish {
+		w.w.lastFault = "publishFail"
 		return errors.New("verif-publish-fault")
 	}
 	return nil
@@ -175,6 +183,7 @@ func (w *c07Wallet) FundPsbt(_ context.Context,
 
 	w.w.fundReq = req
 	if w.w.fundFail || w.w.fundHook == nil {
+		w.w.lastFault = "fundFail"
 		return nil, 0, nil, errors.New("verif-fund-fault")
 	}
 	tpl, err := psbt.NewFromRawBytes(
@@ -185,6 +194,7 @@ func (w *c07Wallet) FundPsbt(_ context.Context,
 	}
 	p, idx, ok := w.w.fundHook(tpl)
 	if !ok {
+		w.w.lastFault = "fundFail"
 		return nil, 0, nil, errors.New("verif-fund-fault")
 	}
 	// like lnd: every selected input is leased under a lock ID
